@@ -18,8 +18,36 @@ inline bool closeTo(double a, double b)
 }
 
 // ---------------------------------------------------------------- sequential specifications
+// For the online statistics the sequential specification is the library class itself, executed
+// sequentially (set by props/C19.cpp): getAverage() on an empty window and getVariance() before the window is
+// full are not defined by any statement, but "a value some sequential ordering of the calls would produce" is
+// defined by what the implementation does sequentially. Without the hooks (tools/selftest_sc.cpp) a deque model
+// that leaves those reads unconstrained is used.
+struct TwinOps
+{
+  void * (*make)(int W, bool variance);
+  void * (*clone)(void *, bool variance);
+  void (*destroy)(void *, bool variance);
+  bool (*apply)(void *, bool variance, const Rec &);
+};
+inline TwinOps * gTwinOps = nullptr;
+
 struct SeqModel
 {
+  void * twin = nullptr; bool twinVar = false; uint64_t twinHash = 0;
+  SeqModel() = default;
+  SeqModel(const SeqModel & o) {*this = o;}
+  SeqModel & operator=(const SeqModel & o)
+  {
+    if (this == &o) {return *this;}
+    if (twin) {gTwinOps->destroy(twin, twinVar); twin = nullptr;}
+    sc = o.sc; W = o.W; a = o.a; b = o.b; cur = o.cur; has = o.has; win = o.win; since = o.since; chk = o.chk; rate = o.rate; rep = o.rep;
+    twinVar = o.twinVar; twinHash = o.twinHash;
+    if (o.twin) {twin = gTwinOps->clone(o.twin, o.twinVar);}
+    return *this;
+  }
+  ~SeqModel() {if (twin) {gTwinOps->destroy(twin, twinVar);}}
+
   int sc = 0; int W = 2; double a = 0, b = 0;
   uint64_t cur = 0; bool has = false;                 // shared variable / optional mailbox
   std::deque<double> win; uint64_t since = 0;          // online statistics
@@ -34,6 +62,10 @@ struct SeqModel
     chk = model::CheckupModel(k, kName, a, b);
     if (sc >= S_RATE_MON) {rate.init(a);}
     rep.status = model::ERROR; rep.message = std::string("no data received from ") + kName; rep.value = "";
+    if (sc == S_SHARED_OPT && a != 0) {has = true; cur = kInitialOptionalSeq;}
+    if (twin) {gTwinOps->destroy(twin, twinVar); twin = nullptr;}
+    twinHash = 0;
+    if (gTwinOps && (sc == S_ONLINE_AVG || sc == S_ONLINE_VAR)) {twinVar = sc == S_ONLINE_VAR; twin = gTwinOps->make(W, twinVar);}
   }
   int rateKind() const {return sc == S_CHECKUP_RATE_EQ ? model::EqualTo : model::GreaterThan;}
 
@@ -41,6 +73,10 @@ struct SeqModel
   // this order produces
   bool apply(const Rec & r)
   {
+    if (twin && r.kind >= O_UPDATE && r.kind <= O_GET_VAR) {
+      if (r.kind == O_UPDATE || r.kind == O_RESET) {twinHash = mix64(twinHash, (uint64_t)r.kind * 31 + bitsOf(r.v));}
+      return gTwinOps->apply(twin, twinVar, r);
+    }
     switch (r.kind) {
       case O_STORE: cur = r.seq; has = true; return true;
       case O_LOAD: return r.outSeq == cur;
@@ -120,6 +156,7 @@ struct SeqModel
   uint64_t hash() const
   {
     uint64_t h = mix64(cur, has);
+    h = mix64(h, twinHash);
     for (double v : win) {h = mix64(h, bitsOf(v));}
     h = mix64(h, since);
     h = mix64(h, (uint64_t)chk.rep.status); h = mix64(h, hashStr(chk.rep.value)); h = mix64(h, hashStr(chk.rep.message));
